@@ -81,6 +81,7 @@ type Op struct {
 	Scope   string `json:"scope,omitempty"`
 	Start   string `json:"start,omitempty"`
 	Level   string `json:"level,omitempty"` // driver | engine
+	Parts   []int  `json:"parts,omitempty"` // GridFS: fragmentation of writes / reads
 }
 
 // TaskPlan is the script of one task.
